@@ -93,7 +93,8 @@ def gen_case(rng, tier, index):
             "align": rng.random() < 0.4, "caller": rng.random() < 0.3,
             "scratch": max(0, scratch), "reads": reads,
             "leaf": rng.random() < 0.5, "seed": rng.randrange(1 << 30),
-            "upper": rng.random() < 0.3}
+            "upper": rng.random() < 0.3,
+            "read_alias": rng.random() < 0.4}
 
 
 def exhaustive(tier):
@@ -145,9 +146,19 @@ def run_case(c):
     isa, isa_g, fmt = ABIS[abi_name]
     abi = ABI.get(Desc(isa_g, fmt))
     clob = [r.upper() if c["upper"] else r for r in c["clobbers"]]
+    reads_as = set(c["reads"])
+    if c.get("read_alias"):
+        # the patch may name a register it reads by any of its sub-register
+        # names (eax, ax, al, w0, ...)
+        arng = random.Random(c["seed"])
+        reads_as = set()
+        for r in c["reads"]:
+            names = sorted(set(abi.get_register(r).sizes.values()))
+            reads_as.add(arng.choice(names))
+        ctr["reads_by_subregister_name"] = len(reads_as)
     cons = Constraints(
         clobbers_flags=c["flags"], clobbers_registers=set(clob),
-        scratch_registers=c["scratch"], reads_registers=set(c["reads"]),
+        scratch_registers=c["scratch"], reads_registers=reads_as,
         align_stack=c["align"],
         preserve_caller_saved_registers=c["caller"])
     pool = POOL[abi_name]
